@@ -74,6 +74,51 @@ Proof.
 Qed.
 Print Assumptions C06_nan_consistent.
 
+(* with at least one target and unbounded max_distance (R = M = +inf) no cell is NaN - in any of the
+   three outputs (by C06_nan_consistent) *)
+Theorem C06_no_nan_unbounded :
+  forall key tie_up xc yc values img r0 c0 r c,
+  let g := process key tie_up EInf EInf xc yc values img in
+  let h := lenZ img in let w := lenZ (nthZ [] img 0) in
+  coords_ok xc w -> coords_ok yc h -> rect img ->
+  is_target values (cellv img r0 c0) = true ->
+  0 <= r < h -> 0 <= c < w ->
+  prox_of g r c <> LUnset /\ index_of g r c <> None.
+Proof.
+  intros key tie_up xc yc values img r0 c0 r c g h w Hx Hy Hrect HT Hr Hc.
+  assert (H1 : prox_of g r c <> LUnset)
+    by exact (fill_final key tie_up xc yc values img Hx Hy Hrect r0 c0 HT r c Hr Hc).
+  split; auto. intros Hn. apply H1.
+  pose proof (process_rows key tie_up EInf EInf xc yc values img r c Hr Hc) as H. fold g in H.
+  destruct (prox_of g r c) as [|e]; auto.
+  destruct H as (t & _ & Hi). congruence.
+Qed.
+Print Assumptions C06_no_nan_unbounded.
+
+(* single target, unbounded max_distance: every cell gets exactly the distance to that target,
+   remembers it, and allocation reports its value *)
+Theorem C06_single_target_exact :
+  forall key tie_up xc yc values img r0 c0 r c,
+  let g := process key tie_up EInf EInf xc yc values img in
+  let h := lenZ img in let w := lenZ (nthZ [] img 0) in
+  coords_ok xc w -> coords_ok yc h -> rect img -> key 0 0 = 0 ->
+  is_target values (cellv img r0 c0) = true ->
+  (forall r' c', is_target values (cellv img r' c') = true -> r' = r0 /\ c' = c0) ->
+  0 <= r < h -> 0 <= c < w ->
+  exists d, dist2 key xc yc r0 c0 r c = Some d /\ prox_of g r c = LVal (EFin d) /\
+            index_of g r c = Some (r0, c0) /\ alloc_of img g r c = cellv img r0 c0.
+Proof.
+  intros key tie_up xc yc values img r0 c0 r c g h w Hx Hy Hrect Hk HT Huniq Hr Hc.
+  assert (H1 : prox_of g r c <> LUnset)
+    by exact (fill_final key tie_up xc yc values img Hx Hy Hrect r0 c0 HT r c Hr Hc).
+  destruct (prox_of g r c) as [|e] eqn:Ep; [congruence|].
+  destruct (named_target key tie_up EInf EInf xc yc values img Hx Hy Hk eq_refl r c e Hr Hc Ep)
+    as (tr & tc & d & Hi & HTt & Hd & He & _).
+  destruct (Huniq tr tc HTt) as (-> & ->).
+  exists d. subst e. unfold alloc_of. subst g. rewrite Hi. auto.
+Qed.
+Print Assumptions C06_single_target_exact.
+
 (* bounded supplement (vm_compute): for EVERY target layout on EVERY grid up to 3x4 / 4x3 with unit
    cells, EUCLIDEAN, max_distance in {inf, 1, sqrt 2, 2}: proximity = exact brute-force nearest
    distance (NaN exactly when it exceeds max_distance) *)
